@@ -195,3 +195,83 @@ package invoices
 //@   props C15
 //@   site call getUpdatedInvoiceAmpState: assert arg(0) == invoice && arg(3) == HtlcStateSettled && arg(4) == 0
 //@   site call UpdateAmpState: assert retn(getUpdatedInvoiceAmpState, 1) == nil
+//@
+//@ // ---- registry layer: which resolution is handed to which HTLC
+//@ func (i *InvoiceRegistry) SettleHodlInvoice$1
+//@   props C15
+//@   ensures result1 == nil ==> result0 != nil && invoice.State != ContractOpen && invoice.State != ContractCanceled && invoice.State != ContractSettled
+//@   ensures invoice.State == ContractOpen ==> result1 == ErrInvoiceStillOpen
+//@   ensures invoice.State == ContractCanceled ==> result1 == ErrInvoiceAlreadyCanceled
+//@   ensures invoice.State == ContractSettled ==> result1 == ErrInvoiceAlreadySettled
+//@   site store InvoiceUpdateDesc.UpdateType: assert value == SettleHodlInvoiceUpdate
+//@   site store InvoiceStateUpdateDesc.NewState: assert value == ContractSettled
+//@
+//@ func (i *InvoiceRegistry) SettleHodlInvoice
+//@   props C15
+//@   loop * havoc
+//@   site call Hash: assert arg(0) == addr(preimage)
+//@   site call InvoiceRefByHash: assert arg(0) == ret(Hash)
+//@   site call UpdateInvoice: assert arg(2) == ret(InvoiceRefByHash) && arg(3) == nil
+//@   site call NewSettleResolution: assert retn(UpdateInvoice, 1) == nil && htlc.State == HtlcStateSettled &&
+//@        arg(preimage) == *addr(preimage) && arg(key) == key && arg(acceptHeight) == swrap(htlc.AcceptHeight, 32) && arg(outcome) == ResultSettled
+//@   site call notifyHodlSubscribers: assert dynptr(arg(htlcResolution), *HtlcSettleResolution) == ret(NewSettleResolution) &&
+//@        typeis(arg(htlcResolution), *HtlcSettleResolution)
+//@   site call notifyClients: assert retn(UpdateInvoice, 1) == nil && arg(hash) == ret(Hash) && arg(invoice) == retn(UpdateInvoice, 0)
+//@
+//@ func (i *InvoiceRegistry) notifyExitHopHtlcLocked$2
+//@   props C15
+//@   loop * havoc
+//@   site call resolveReplayedHtlc: assert arg(ctx) == ctx && arg(inv) == inv
+//@   site call updateInvoice as domain: domain 0 <= ctx.currentHeight && ctx.currentHeight <= 1<<30 && 0 <= ctx.finalCltvRejectDelta &&
+//@        ctx.finalCltvRejectDelta <= 1<<20 && 0 <= inv.Terms.FinalCltvDelta && inv.Terms.FinalCltvDelta <= 1<<20 && inv.State <= ContractAccepted
+//@   site call updateInvoice: assert !cancelSet && !retn(resolveReplayedHtlc, 0) && retn(resolveReplayedHtlc, 2) == nil &&
+//@        arg(ctx) == ctx && arg(inv) == inv
+//@   site store InvoiceUpdateDesc.UpdateType: assert value == CancelHTLCsUpdate && cancelSet && inv.State == ContractOpen &&
+//@        !retn(resolveReplayedHtlc, 0)
+//@   site call HTLCSet: assert arg(state) == HtlcStateAccepted && arg(0) == inv
+//@   site call NewFailResolution nth 0: assert arg(outcome) == ResultInvoiceNotOpen && cancelSet && inv.State != ContractOpen
+//@   site call NewFailResolution nth 1: assert arg(outcome) == ExternalValidationFailed && cancelSet && inv.State == ContractOpen
+//@
+//@ func (i *InvoiceRegistry) cancelInvoiceImpl$1
+//@   props C15
+//@   site store InvoiceUpdateDesc.UpdateType: assert value == CancelInvoiceUpdate && ret(shouldCancel)
+//@   site store InvoiceStateUpdateDesc.NewState: assert value == ContractCanceled && ret(shouldCancel)
+//@   site call shouldCancel: assert arg(0) == invoice.State && arg(1) == cancelAccepted
+//@   ensures !ret(shouldCancel) ==> result0 == nil && result1 == nil
+//@
+//@ func (i *InvoiceRegistry) cancelInvoiceImpl
+//@   props C15
+//@   loop * havoc
+//@   site call UpdateInvoice: assert arg(2) == ret(InvoiceRefByHash, 1) && arg(3) == nil
+//@   site call InvoiceRefByHash: assert arg(0) == payHash
+//@   site call NewFailResolution: assert htlc.State == HtlcStateCanceled && arg(key) == key &&
+//@        arg(acceptHeight) == swrap(htlc.AcceptHeight, 32) && arg(outcome) == ResultCanceled && retn(UpdateInvoice, 1) == nil
+//@   site call notifyClients: assert arg(hash) == payHash && arg(invoice) == retn(UpdateInvoice, 0) && retn(UpdateInvoice, 1) == nil
+//@
+//@ func (i *InvoiceRegistry) cancelSingleHtlc$1
+//@   props C15
+//@   site store InvoiceUpdateDesc.UpdateType: assert value == CancelHTLCsUpdate && invoice.State == ContractOpen && htlcState == HtlcStateAccepted
+//@   site mapupdate canceledHtlcs: assert arg(key) == key
+//@   ensures invoice.State != ContractOpen ==> result0 == nil && result1 == nil
+//@
+//@ func (i *InvoiceRegistry) cancelSingleHtlc
+//@   props C15
+//@   loop * havoc
+//@   site call UpdateInvoice: assert arg(2) == invoiceRef
+//@   site call NewFailResolution: assert updated && retn(UpdateInvoice, 1) == nil && htlc.State == HtlcStateCanceled &&
+//@        arg(key) == key && arg(acceptHeight) == swrap(htlc.AcceptHeight, 32) && arg(outcome) == entry(result)
+//@   site lookup Htlcs: assert arg(key) == key
+//@
+//@ func (i *InvoiceRegistry) notifyExitHopHtlcLocked
+//@   props C15
+//@   loop * havoc
+//@   site call UpdateInvoice: assert arg(2) == ret(invoiceRef) && retn(LookupInvoice, 1) == nil && ret(Intercept) == nil
+//@   site call LookupInvoice: assert arg(2) == ret(invoiceRef)
+//@   site call HTLCSet nth 1: assert arg(state) == HtlcStateCanceled && arg(0) == retn(UpdateInvoice, 0) && arg(setID) == setID
+//@   site call HTLCSet nth 2: assert arg(state) == HtlcStateSettled && arg(0) == retn(UpdateInvoice, 0) && arg(setID) == setID
+//@   site call HTLCSetCompliment: assert arg(state) == HtlcStateCanceled && arg(0) == retn(UpdateInvoice, 0) && arg(setID) == setID
+//@   site call NewSettleResolution: assert arg(key) == key && arg(acceptHeight) == swrap(htlc.AcceptHeight, 32) &&
+//@        arg(outcome) == res.Outcome && retn(UpdateInvoice, 1) == nil
+//@   site call hodlSubscribe: assert arg(subscriber) == hodlChan && arg(circuitKey) == ctx.circuitKey && retn(UpdateInvoice, 1) == nil
+//@   site call notifyClients: assert arg(hash) == ctx.hash && arg(invoice) == retn(UpdateInvoice, 0) && retn(UpdateInvoice, 1) == nil
+//@   site call makeInvoiceExpiry: assert arg(0) == ctx.hash && arg(1) == retn(UpdateInvoice, 0)
